@@ -237,7 +237,7 @@ class Run:
             h.at(0.0, self._watch, reg)
         h.loop.idle_hooks.append(self.on_idle)
         for pos, (t, rank, a) in enumerate(self.script):
-            h.at(t, self.do, pos, a, rank=rank)
+            h.at(t, self.do, pos, a, rank=rank, hops=a.get("hops", 0))
         h.run(horizon)
         problems = h.problems()
         h.close()
@@ -255,6 +255,7 @@ class Builder:
         self.deadlines = {}  # (src, svc) -> deadline (light model for placement only)
         self.regs = set(init_regs)
         self.last_rank = BEFORE
+        self.last_hops = 0
 
     def pending(self):
         ds = sorted(d for d in self.deadlines.values() if d != math.inf and d > self.now + 2 * EPS)
@@ -267,14 +268,15 @@ class Builder:
             while any(d != math.inf and abs(d - t) < 4 * EPS for d in self.deadlines.values()):
                 t += 2.0 ** -5
             return t, BEFORE
-        if placement == "same":
-            if not self.script:
-                return None
+        if placement in ("same", "same+1", "same+2"):
+            if not self.script or self.last_hops:
+                return None  # nothing more in the instant of a hopped action: script order stays execution order
             return self.now, self.last_rank
         d = self.pending()
         if d is None:
             return None
-        return {"d-eps": (d - EPS, BEFORE), "d:before": (d, BEFORE), "d:after": (d, AFTER), "d+eps": (d + EPS, BEFORE)}[placement]
+        return {"d-eps": (d - EPS, BEFORE), "d:before": (d, BEFORE), "d:after": (d, AFTER), "d+eps": (d + EPS, BEFORE),
+                "d:after+1": (d, AFTER)}[placement]
 
     def add(self, action, placement):
         p = self.place(placement)
@@ -314,9 +316,12 @@ class Builder:
             if a["reg"] not in self.regs:
                 return False
             self.regs.discard(a["reg"])
+        hops = int(placement.split("+")[1]) if "+" in placement and placement != "d+eps" else 0
+        a["hops"] = hops
         self.script.append((t, rank, a))
         self.now = t
         self.last_rank = rank
+        self.last_hops = hops
         return True
 
     def horizon(self):
@@ -342,7 +347,7 @@ ALPHABET = {
     "sA1+oA1t2": dict(kind="msg", src="A", mc=False, entries=[(S1, 0), (S1, 2)]),
 }
 LETTERS = list(ALPHABET)
-PLACEMENTS = ("new", "same", "d-eps", "d:before", "d:after", "d+eps")
+PLACEMENTS = ("new", "same", "same+1", "d-eps", "d:before", "d:after", "d+eps")
 INITS = ((), ("ALL",), ("F1",))
 
 
@@ -392,7 +397,7 @@ def random_history(rng):
         else:
             reg = rng.choice(list(REGS))
             a = dict(kind="unwatch" if reg in b.regs else "watch", reg=reg)
-        pl = rng.choice(("new", "new", "same", "same", "d-eps", "d:before", "d:after", "d+eps"))
+        pl = rng.choice(("new", "new", "same", "same", "same+1", "same+2", "d-eps", "d:before", "d:after", "d:after+1", "d+eps"))
         if b.add(a, pl):
             seq.append((a["kind"], pl))
     return init, b, tuple(seq)
@@ -421,6 +426,8 @@ def count_placements(ctx, seq):
     for _l, pl in seq:
         if pl == "same":
             ctx.count("same_iteration_placements")
+        elif "+" in pl and pl != "d+eps":
+            ctx.count("later_iteration_same_instant_placements")
         elif pl == "d:before":
             ctx.count("deadline_before_placements")
         elif pl == "d:after":
